@@ -391,6 +391,32 @@ Section Proofs.
     - unfold Stream.sstep. cbn [fst snd]. rewrite E. cbn [snd].
       destruct op; cbn [ints_in_range]; exact IH.
   Qed.
+
+  (* stronger contract: a non-empty range is always answered by an integer of
+     the range (no exception) *)
+  Hypothesis nint_total : forall lo hi k,
+    lo <= hi -> unit_num k -> exists r, nint lo hi k = OInt r /\ lo <= r <= hi.
+
+  Fixpoint ints_answered (ops : list (nat * sop)) (outs : list out) : Prop :=
+    match ops, outs with
+    | (_, NextInt lo hi) :: r, o :: os =>
+        (lo <= hi -> exists z, o = OInt z /\ lo <= z <= hi) /\ ints_answered r os
+    | _ :: r, _ :: os => ints_answered r os
+    | [], [] => True
+    | _, _ => False
+    end.
+
+  Theorem int_draws_answered_in_range ops : forall st, valid_ops (length st) ops ->
+    ints_answered ops (snd (srun st ops)).
+  Proof.
+    induction ops as [|[i op] r IH]; intros st Hv; [exact I|].
+    rewrite srun_cons. cbn [snd]. inversion Hv as [|x y Hi Hr]; subst. cbn [fst] in Hi.
+    specialize (IH (fst (sstep st (i, op)))). rewrite sstep_length in IH. specialize (IH Hr).
+    destruct (nth_error st i) as [m|] eqn:E; [|apply nth_error_None in E; lia].
+    rewrite (sstep_at st i op m E) in *. cbn [fst snd] in *.
+    destruct op; cbn [ints_answered]; try exact IH.
+    split; [|exact IH]. intros Hl. cbn. apply nint_total; [exact Hl|apply raw_unit].
+  Qed.
 End Proofs.
 
 (* operations that draw nothing do not look at the generator *)
@@ -452,6 +478,116 @@ Proof.
   { rewrite Zlt_Qlt. eapply Qle_lt_trans; [apply Qfloor_le|].
     rewrite <- (Qmult_1_r (inject_Z w)) at 2. apply Qmult_lt_l; assumption. }
   lia.
+Qed.
+
+(* ---------- the binary64 product stays in range for widths below 2^53 ---------- *)
+Lemma bitlen_pos_spec n : 0 < n -> 2 ^ (bitlen n - 1) <= n < 2 ^ bitlen n.
+Proof.
+  intros H. unfold bitlen. destruct (n <=? 0) eqn:E; [apply Z.leb_le in E; lia|].
+  replace (Z.log2 n + 1 - 1) with (Z.log2 n) by lia.
+  replace (Z.log2 n + 1) with (Z.succ (Z.log2 n)) by lia.
+  apply Z.log2_spec. exact H.
+Qed.
+
+Lemma bitlen_le_53 w : 0 <= w < two53 -> bitlen w <= 53.
+Proof.
+  intros H. unfold bitlen. destruct (w <=? 0) eqn:E; [lia|]. apply Z.leb_gt in E.
+  assert (Z.log2 w < 53); [|lia].
+  apply Z.log2_lt_pow2; [lia|]. change (2 ^ 53) with two53. lia.
+Qed.
+
+Lemma rne53_small n : bitlen n <= 53 -> rne53 n = n.
+Proof.
+  unfold rne53. intros H. destruct (bitlen n - 53 <=? 0) eqn:E; [reflexivity|].
+  apply Z.leb_gt in E. lia.
+Qed.
+
+Lemma rne53_nonneg n : 0 <= n -> 0 <= rne53 n.
+Proof.
+  intros H. unfold rne53. destruct (bitlen n - 53 <=? 0) eqn:Es; [exact H|].
+  apply Z.leb_gt in Es. set (s := bitlen n - 53) in *.
+  assert (Hp : 0 < 2 ^ s) by (apply Z.pow_pos_nonneg; lia).
+  assert (Hq : 0 <= n / 2 ^ s) by (apply Z.div_pos; lia).
+  destruct (_ || _); apply Z.mul_nonneg_nonneg; lia.
+Qed.
+
+(* the rounded product w * u stays strictly below w: the distance w from
+   w * 2^53 exceeds half a unit in the last place of the product *)
+Lemma rne53_mul_lt w k : 1 <= w < two53 -> 0 <= k < two53 -> rne53 (w * k) < w * two53.
+Proof.
+  intros Hw Hk. set (x := w * k).
+  assert (Hx : 0 <= x <= w * two53 - w) by (unfold x; nia).
+  unfold rne53. set (s := bitlen x - 53).
+  destruct (s <=? 0) eqn:Es; [lia|]. apply Z.leb_gt in Es.
+  assert (Hxpos : 0 < x).
+  { destruct (Z.eq_dec x 0) as [E0|E0]; [|lia]. unfold s in Es. rewrite E0 in Es. cbn in Es. lia. }
+  pose proof (bitlen_pos_spec x Hxpos) as [Hlo _].
+  replace (bitlen x - 1) with ((s - 1) + 53) in Hlo by (unfold s; lia).
+  rewrite Z.pow_add_r in Hlo by lia. change (2 ^ 53) with two53 in Hlo.
+  assert (H2s : 2 ^ s = 2 * 2 ^ (s - 1)).
+  { replace s with (Z.succ (s - 1)) at 1 by lia. rewrite Z.pow_succ_r by lia. reflexivity. }
+  rewrite H2s.
+  assert (HP : 0 < 2 ^ (s - 1)) by (apply Z.pow_pos_nonneg; lia).
+  set (P := 2 ^ (s - 1)) in *.
+  assert (HPw : P < w) by nia.
+  pose proof (Z.div_mod x (2 * P) ltac:(lia)) as Hdm.
+  pose proof (Z.mod_pos_bound x (2 * P) ltac:(lia)) as Hmb.
+  set (q := x / (2 * P)) in *. set (r := x mod (2 * P)) in *.
+  destruct ((P <? r) || ((r =? P) && Z.odd q)) eqn:Eup.
+  - assert (Hr : P <= r).
+    { apply orb_true_iff in Eup as [E1|E1].
+      - apply Z.ltb_lt in E1. lia.
+      - apply andb_true_iff in E1 as [E1 _]. apply Z.eqb_eq in E1. lia. }
+    nia.
+  - nia.
+Qed.
+
+Lemma two53_lt_float_limit : two53 < float_limit.
+Proof. reflexivity. Qed.
+
+(* what the pinned code computes, for every non-empty range narrower than 2^53 *)
+Theorem next_int_b64_in_range lo hi k :
+  lo <= hi -> hi - lo + 1 < two53 -> 0 <= k < two53 ->
+  exists r, next_int_b64 lo hi k = OInt r /\ lo <= r <= hi.
+Proof.
+  intros Hl Hw Hk. unfold next_int_b64. set (w := hi - lo + 1) in *.
+  assert (Hw1 : 1 <= w < two53) by (unfold w; lia).
+  assert (Ef : rne53s w = w).
+  { unfold rne53s. assert (E : w <? 0 = false) by (apply Z.ltb_ge; lia). rewrite E.
+    apply rne53_small, bitlen_le_53. lia. }
+  rewrite Ef.
+  assert (El : float_limit <=? Z.abs w = false).
+  { apply Z.leb_gt. pose proof two53_lt_float_limit. lia. }
+  rewrite El.
+  assert (Ep : rne53s (w * k) = rne53 (w * k)).
+  { unfold rne53s. assert (E : w * k <? 0 = false) by (apply Z.ltb_ge; nia). rewrite E. reflexivity. }
+  rewrite Ep. eexists. split; [reflexivity|].
+  pose proof (rne53_mul_lt w k Hw1 Hk) as Hlt.
+  pose proof (rne53_nonneg (w * k) ltac:(nia)) as H0.
+  pose proof two53_pos as Hp.
+  assert (Ha : 0 <= rne53 (w * k) / two53) by (apply Z.div_pos; lia).
+  assert (Hb : rne53 (w * k) / two53 < w).
+  { apply Z.div_lt_upper_bound; [exact Hp|]. lia. }
+  unfold w in *. lia.
+Qed.
+
+(* the repaired next_int: for EVERY non-empty range, whatever its width, an
+   integer of the range is returned (no exception) *)
+Theorem next_int_fixed_in_range lo hi k :
+  lo <= hi -> 0 <= k < two53 ->
+  exists r, next_int_fixed lo hi k = OInt r /\ lo <= r <= hi.
+Proof.
+  intros Hl Hk. unfold next_int_fixed.
+  destruct (hi - lo + 1 <? two53) eqn:E.
+  - apply Z.ltb_lt in E. apply next_int_b64_in_range; assumption.
+  - eexists. split; [reflexivity|]. apply next_int_exact_in_range; assumption.
+Qed.
+
+Lemma next_int_fixed_contract lo hi k r :
+  lo <= hi -> 0 <= k < two53 -> next_int_fixed lo hi k = OInt r -> lo <= r <= hi.
+Proof.
+  intros Hl Hk H. destruct (next_int_fixed_in_range lo hi k Hl Hk) as [r' [E Hr]].
+  rewrite E in H. injection H as <-. exact Hr.
 Qed.
 
 (* ---------- what the code computes differs from the exact formula ---------- *)
